@@ -12,6 +12,8 @@
 //!   scripts over overlapping rows, every merge order of their statements and their ends.
 //! Part S3 (expiry): holder statement, virtual clock advanced by 0 / 29 s / 31 s / 61 s, second
 //!   writer. (31 s = lock timeout passed, transaction timeout not: information only.)
+//! Part S4 (taken-over lock): tx0 writes, +31 s, tx1 writes the same rows (admitted: information),
+//!   tx0 ends, +0/+29 s, a third writer must be refused by tx1's fresh lock; tx1, tx2 end both ways.
 //! Part T (lock-level): 2-3 real threads under vsched, every schedule with <= bound preemptions;
 //!   judged from the call results: two open transactions never both write a row, the final table
 //!   is the committed transactions' writes in some order (rolled-back ones leave nothing), indexed
@@ -23,7 +25,7 @@
 //!   transaction must be refused by every tx_* call, and no row lock may be left.
 //! Information only (never a verdict): a non-transactional statement on a row an open transaction
 //!   holds; a second writer admitted after the 30 s lock timeout while the holder is still open.
-//! Flags: --selftest (corrupted reference: must print VIOLATION), --replay <file>, --only=S1|S2|S3|T,
+//! Flags: --selftest (corrupted reference: must print VIOLATION), --replay <file>, --only=S1|S2|S3|S4|T,
 //!   --repro (standalone reproductions of the findings), --probe-cost.
 use nvc::{env, par, Report};
 use relational_engine::{Column, ColumnType, ColumnarScanOptions, Condition, CursorOptions, RelationalEngine, RelationalError, Row, Schema, Value};
@@ -451,49 +453,100 @@ enum TxSt {
 #[derive(Clone, Debug)]
 struct TxM {
     st: TxSt,
-    /// rows this transaction has inserted / modified / deleted while open -> how
-    held: BTreeMap<u64, &'static str>,
+    /// rows this transaction has inserted / modified / deleted while open -> (how, when its row lock was last taken)
+    held: BTreeMap<u64, (&'static str, i64)>,
+    /// rows whose expired lock another writer took over while this transaction was still open
+    lost: BTreeSet<u64>,
     undo: Vec<(u64, Option<RowV>)>,
-    lock_limbo: bool,
-    timed_out: bool,
+    began: i64,
     real_id: u64,
+}
+/// what a holder's claim on a row is worth at the current virtual time
+#[derive(Clone, Copy, Debug, PartialEq, Eq)]
+enum Hold {
+    /// lock younger than the lock timeout, holder younger than the transaction timeout: must exclude
+    Hard,
+    /// exactly one of the two timeouts has passed (documented lock expiry): information only
+    Soft,
+    /// both have passed: the lock must be gone
+    Vanished,
 }
 #[derive(Clone, Debug)]
 struct Model {
     rows: Table,
     next_id: u64,
     tx: Vec<TxM>,
+    /// virtual milliseconds since the case started
+    now: i64,
 }
 impl Model {
     fn new(rows0: u8, ntx: u8) -> Model {
-        Model { rows: init_table(rows0), next_id: u64::from(rows0) + 1, tx: (0..ntx).map(|_| TxM { st: TxSt::NotBegun, held: BTreeMap::new(), undo: vec![], lock_limbo: false, timed_out: false, real_id: 0 }).collect() }
+        Model { rows: init_table(rows0), next_id: u64::from(rows0) + 1, tx: (0..ntx).map(|_| TxM { st: TxSt::NotBegun, held: BTreeMap::new(), lost: BTreeSet::new(), undo: vec![], began: 0, real_id: 0 }).collect(), now: 0 }
     }
     fn matched(&self, cx: &Cx) -> Vec<u64> {
         self.rows.iter().filter(|(id, r)| cx.matches(**id, r)).map(|(id, _)| *id).collect()
     }
-    /// (row, holder tx, how, soft) for every matched row another open transaction holds
-    fn blockers(&self, me: Option<usize>, ids: &[u64]) -> Vec<(u64, usize, &'static str, bool)> {
+    fn tx_expired(&self, k: usize) -> bool {
+        self.now - self.tx[k].began > TX_TIMEOUT_MS
+    }
+    fn hold(&self, k: usize, id: u64) -> Option<(&'static str, Hold)> {
+        let t = &self.tx[k];
+        if t.st != TxSt::Active {
+            return None;
+        }
+        let (how, at) = *t.held.get(&id)?;
+        let lock_expired = self.now - at > LOCK_TIMEOUT_MS;
+        Some((how, match (lock_expired, self.tx_expired(k)) {
+            (false, false) => Hold::Hard,
+            (true, true) => Hold::Vanished,
+            _ => Hold::Soft,
+        }))
+    }
+    /// (row, holder tx, how, worth) for every matched row another open transaction holds
+    fn blockers(&self, me: Option<usize>, ids: &[u64]) -> Vec<(u64, usize, &'static str, Hold)> {
         let mut v = vec![];
-        for (k, t) in self.tx.iter().enumerate() {
-            if Some(k) == me || t.st != TxSt::Active || t.timed_out {
+        for k in 0..self.tx.len() {
+            if Some(k) == me {
                 continue;
             }
             for id in ids {
-                if let Some(how) = t.held.get(id) {
-                    v.push((*id, k, *how, t.lock_limbo));
+                if let Some((how, h)) = self.hold(k, *id) {
+                    v.push((*id, k, how, h));
                 }
             }
         }
         v
     }
+    /// an admitted writer takes the (expired) locks of the other holders of these rows over
+    fn take_over(&mut self, me: Option<usize>, ids: &[u64]) -> bool {
+        let mut any = false;
+        for k in 0..self.tx.len() {
+            if Some(k) == me || self.tx[k].st != TxSt::Active {
+                continue;
+            }
+            for id in ids {
+                if self.tx[k].held.remove(id).is_some() {
+                    self.tx[k].lost.insert(*id);
+                    any = true;
+                }
+            }
+        }
+        any
+    }
     fn apply(&mut self, me: Option<usize>, s: &Stmt, ids: &[u64]) {
+        let now = self.now;
+        let mut hold = |t: &mut TxM, id: u64, how: &'static str| {
+            // the engine re-takes the row lock with the current time on every write
+            let how = t.held.get(&id).map_or(how, |x| x.0);
+            t.held.insert(id, (how, now));
+        };
         match s {
             Stmt::Ins(h, o) => {
                 let id = self.next_id;
                 self.next_id += 1;
                 self.rows.insert(id, (*h, *o));
                 if let Some(k) = me {
-                    self.tx[k].held.insert(id, "inserted");
+                    hold(&mut self.tx[k], id, "inserted");
                     self.tx[k].undo.push((id, None));
                 }
             }
@@ -501,7 +554,7 @@ impl Model {
                 for id in ids {
                     let old = self.rows[id];
                     if let Some(k) = me {
-                        self.tx[k].held.entry(*id).or_insert("updated");
+                        hold(&mut self.tx[k], *id, "updated");
                         self.tx[k].undo.push((*id, Some(old)));
                     }
                     set.apply(self.rows.get_mut(id).unwrap());
@@ -511,7 +564,7 @@ impl Model {
                 for id in ids {
                     let old = self.rows.remove(id).unwrap();
                     if let Some(k) = me {
-                        self.tx[k].held.entry(*id).or_insert("deleted");
+                        hold(&mut self.tx[k], *id, "deleted");
                         self.tx[k].undo.push((*id, Some(old)));
                     }
                 }
@@ -547,6 +600,10 @@ struct Info {
     lock_expired_holder_open_second_writer_refused: u64,
     rollback_returned_error: u64,
     cases_cut_at_first_violation: u64,
+    /// a writer was refused because of a lock another transaction had taken over after its expiry (judged)
+    refused_by_lock_taken_over_after_expiry: u64,
+    /// cases in which a transaction rolled back rows it had lost to a later writer: table adopted, not judged
+    cases_with_table_undefined_after_expiry_takeover: u64,
 }
 impl Info {
     fn add(&mut self, o: &Info) {
@@ -556,6 +613,8 @@ impl Info {
         self.lock_expired_holder_open_second_writer_refused += o.lock_expired_holder_open_second_writer_refused;
         self.rollback_returned_error += o.rollback_returned_error;
         self.cases_cut_at_first_violation += o.cases_cut_at_first_violation;
+        self.refused_by_lock_taken_over_after_expiry += o.refused_by_lock_taken_over_after_expiry;
+        self.cases_with_table_undefined_after_expiry_takeover += o.cases_with_table_undefined_after_expiry_takeover;
     }
 }
 #[derive(Default)]
@@ -594,7 +653,6 @@ fn run_case(pool: &mut Pool, case: &Case, level: u8, selftest: bool) -> CaseOut 
 fn run_case_in(e: &RelationalEngine, tn: &str, case: &Case, level: u8, selftest: bool) -> CaseOut {
     let mut out = CaseOut::default();
     let mut m = Model::new(case.rows0, case.ntx);
-    let mut advanced: i64 = 0;
     let hist = |i: usize| case.events[..=i].iter().map(show_ev).collect::<Vec<_>>().join("; ");
     macro_rules! fail {
         ($sig:expr, $msg:expr) => {{
@@ -604,38 +662,29 @@ fn run_case_in(e: &RelationalEngine, tn: &str, case: &Case, level: u8, selftest:
         }};
     }
     let mut any_rollback = false;
+    // rows whose expired lock was taken over while the first holder was open; once such a holder rolls
+    // back, the table is no longer defined by the property (documented lock expiry): it is adopted
+    let mut contested: BTreeSet<u64> = BTreeSet::new();
+    let mut tainted = false;
     for (i, ev) in case.events.iter().enumerate() {
         out.steps += 1;
         // lazily begin the transaction an event refers to
         if let Ev::Tx(k, _) | Ev::Commit(k) | Ev::Rollback(k) = ev {
+            let now = m.now;
             let t = &mut m.tx[*k as usize];
             if t.st == TxSt::NotBegun {
                 t.real_id = e.begin_transaction();
                 t.st = TxSt::Active;
+                t.began = now;
             }
         }
         let mut after = "statement";
+        let mut adopt = false;
         match ev {
             Ev::Advance(ms) => {
                 env::clock_advance_ms(*ms);
-                advanced += ms;
-                for t in &mut m.tx {
-                    if t.st == TxSt::Active {
-                        if advanced > TX_TIMEOUT_MS {
-                            t.timed_out = true;
-                        } else if advanced > LOCK_TIMEOUT_MS {
-                            t.lock_limbo = true;
-                        }
-                    }
-                }
-                // beyond the transaction timeout no row may still be reported as locked
-                if advanced > TX_TIMEOUT_MS {
-                    let still: Vec<u64> = (1..m.next_id).filter(|id| e.tx_manager().is_row_locked(tn, *id)).collect();
-                    if !still.is_empty() {
-                        fail!("c09:lock:survives-timeout".to_string(), format!("after [{}]: rows {still:?} are still locked although every holder is older than the transaction timeout", hist(i)));
-                    }
-                }
-                continue;
+                m.now += ms;
+                after = "clock";
             }
             Ev::Tx(_, s) | Ev::NonTx(s) => {
                 let me = if let Ev::Tx(k, _) = ev { Some(*k as usize) } else { None };
@@ -645,7 +694,8 @@ fn run_case_in(e: &RelationalEngine, tn: &str, case: &Case, level: u8, selftest:
                     Stmt::Upd(c, _) | Stmt::Del(c) => m.matched(c),
                 };
                 let blockers = m.blockers(me, &ids);
-                let hard: Vec<_> = blockers.iter().filter(|b| !b.3).collect();
+                let hard: Vec<_> = blockers.iter().filter(|b| b.3 == Hold::Hard).collect();
+                let soft = blockers.iter().any(|b| b.3 == Hold::Soft);
                 let got = exec_stmt(e, tn, real, s);
                 if !hard.is_empty() {
                     match got {
@@ -653,6 +703,9 @@ fn run_case_in(e: &RelationalEngine, tn: &str, case: &Case, level: u8, selftest:
                             out.conflicts += 1;
                             if me.is_none() {
                                 out.info.nontx_refused_on_held_row += 1;
+                            }
+                            if hard.iter().any(|b| contested.contains(&b.0)) {
+                                out.info.refused_by_lock_taken_over_after_expiry += 1;
                             }
                             after = "refused statement";
                         }
@@ -663,41 +716,52 @@ fn run_case_in(e: &RelationalEngine, tn: &str, case: &Case, level: u8, selftest:
                         }
                         Got::Ok(n) => {
                             let (row, holder, how, _) = hard[0];
+                            let took = if contested.contains(row) { " (its lock on the row, taken over after the previous holder's lock expired, is fresh)" } else { "" };
                             fail!(
                                 format!("c09:exclusion:second-writer-admitted:row-{how}-by-open-tx"),
-                                format!("after [{}]: {} returned Ok({n}) although row {row} was {how} by tx{holder}, which is still open (expected LockConflict)", hist(i), show_ev(ev))
+                                format!("after [{}]: {} returned Ok({n}) although row {row} was {how} by tx{holder}, which is still open{took} (expected LockConflict)", hist(i), show_ev(ev))
                             );
                         }
                         Got::Err(x) => fail!(format!("c09:statement:unexpected-error:tx_{}", s.kind()), format!("after [{}]: {} failed with {x} (expected LockConflict)", hist(i), show_ev(ev))),
                     }
-                } else if !blockers.is_empty() {
-                    // lock timeout passed, holder still open and not timed out: information only
-                    match got {
-                        Got::Conflict(_) => out.info.lock_expired_holder_open_second_writer_refused += 1,
-                        _ => out.info.lock_expired_holder_open_second_writer_admitted += 1,
-                    }
-                    return out;
                 } else {
-                    match (s, got) {
-                        (Stmt::Ins(..), Got::Ok(id)) if id == m.next_id => {}
-                        (Stmt::Ins(..), Got::Ok(id)) => fail!("c09:statement:insert-id".to_string(), format!("after [{}]: inserted row got id {id}, the next id is {}", hist(i), m.next_id)),
-                        (_, Got::Ok(n)) if n as usize == ids.len() => {}
-                        (_, Got::Ok(n)) => fail!(format!("c09:statement:count-differs:tx_{}", s.kind()), format!("after [{}]: {} returned {n}; {} rows match ({ids:?})", hist(i), show_ev(ev), ids.len())),
-                        (_, Got::Conflict(x)) => {
-                            let ended: Vec<String> = m.tx.iter().enumerate().filter(|(_, t)| matches!(t.st, TxSt::Committed | TxSt::RolledBack) || t.timed_out).map(|(k, _)| format!("tx{k}")).collect();
-                            fail!(
-                                format!("c09:lock:conflict-without-open-holder:tx_{}", s.kind()),
-                                format!("after [{}]: {} was refused ({x}) although no open, unexpired transaction holds a matching row {ids:?} (ended or timed out: {ended:?})", hist(i), show_ev(ev))
-                            );
+                    if soft {
+                        // lock timeout passed, holder still open and not timed out (or the reverse):
+                        // whether the writer is admitted is information only (documented lock expiry)
+                        match got {
+                            Got::Conflict(_) => {
+                                out.info.lock_expired_holder_open_second_writer_refused += 1;
+                                after = "refused statement";
+                            }
+                            Got::Ok(_) => out.info.lock_expired_holder_open_second_writer_admitted += 1,
+                            Got::Err(_) => return out,
                         }
-                        (_, Got::Err(x)) => fail!(format!("c09:statement:unexpected-error:tx_{}", s.kind()), format!("after [{}]: {} failed with {x}", hist(i), show_ev(ev))),
                     }
-                    if !matches!(s, Stmt::Ins(..)) && ids.is_empty() {
-                        // nothing matched: no effect
-                    } else {
-                        out.effective = true;
+                    if after != "refused statement" {
+                        match (s, got) {
+                            (Stmt::Ins(..), Got::Ok(id)) if id == m.next_id => {}
+                            (Stmt::Ins(..), Got::Ok(id)) => fail!("c09:statement:insert-id".to_string(), format!("after [{}]: inserted row got id {id}, the next id is {}", hist(i), m.next_id)),
+                            (_, Got::Ok(n)) if n as usize == ids.len() => {}
+                            (_, Got::Ok(n)) => fail!(format!("c09:statement:count-differs:tx_{}", s.kind()), format!("after [{}]: {} returned {n}; {} rows match ({ids:?})", hist(i), show_ev(ev), ids.len())),
+                            (_, Got::Conflict(x)) => {
+                                let ended: Vec<String> = (0..m.tx.len()).filter(|k| matches!(m.tx[*k].st, TxSt::Committed | TxSt::RolledBack) || (m.tx[*k].st == TxSt::Active && m.tx_expired(*k))).map(|k| format!("tx{k}")).collect();
+                                fail!(
+                                    format!("c09:lock:conflict-without-open-holder:tx_{}", s.kind()),
+                                    format!("after [{}]: {} was refused ({x}) although no open, unexpired transaction holds a matching row {ids:?} (ended or timed out: {ended:?})", hist(i), show_ev(ev))
+                                );
+                            }
+                            (_, Got::Err(x)) => fail!(format!("c09:statement:unexpected-error:tx_{}", s.kind()), format!("after [{}]: {} failed with {x}", hist(i), show_ev(ev))),
+                        }
+                        if !matches!(s, Stmt::Ins(..)) && ids.is_empty() {
+                            // nothing matched: no effect
+                        } else {
+                            out.effective = true;
+                        }
+                        if m.take_over(me, &ids) {
+                            contested.extend(ids.iter().copied());
+                        }
+                        m.apply(me, s, &ids);
                     }
-                    m.apply(me, s, &ids);
                 }
             }
             Ev::Commit(k) | Ev::Rollback(k) => {
@@ -706,8 +770,8 @@ fn run_case_in(e: &RelationalEngine, tn: &str, case: &Case, level: u8, selftest:
                 let id = m.tx[k].real_id;
                 let r = if commit { e.commit(id) } else { e.rollback(id) };
                 after = if commit { "commit" } else { "rollback" };
-                if m.tx[k].timed_out || m.tx[k].lock_limbo {
-                    return out;
+                if m.tx_expired(k) {
+                    return out; // the end of a timed-out transaction is not defined by the property
                 }
                 if let Err(x) = r {
                     if commit {
@@ -716,28 +780,52 @@ fn run_case_in(e: &RelationalEngine, tn: &str, case: &Case, level: u8, selftest:
                     out.info.rollback_returned_error += 1;
                 }
                 any_rollback |= !commit;
+                if !commit && !m.tx[k].lost.is_empty() && !tainted {
+                    tainted = true;
+                    out.info.cases_with_table_undefined_after_expiry_takeover += 1;
+                }
+                adopt = tainted;
                 m.end(k, commit, selftest);
             }
         }
         match raw(e, tn) {
             Err(x) => fail!("c09:table:unreadable".to_string(), format!("after [{}]: {x}", hist(i))),
+            Ok(t) if adopt => m.rows = t,
             Ok(t) if t != m.rows => {
                 let sig = match after {
                     "rollback" => "c09:rollback:table-differs".to_string(),
                     "commit" => "c09:commit:table-differs".to_string(),
                     "refused statement" => "c09:refused-statement:table-changed".to_string(),
+                    "clock" => "c09:clock:table-changed".to_string(),
                     _ => format!("c09:statement:effect-differs:{}", if let Ev::Tx(_, s) | Ev::NonTx(s) = ev { s.kind() } else { "" }),
                 };
                 fail!(sig, format!("after [{}]: {}", hist(i), diff(&t, &m.rows)));
             }
             Ok(_) => {}
         }
+        // row locks: a row an open transaction holds with a fresh lock is locked; a row nobody holds
+        // (or whose holders are past both timeouts) is not
+        for id in 1..m.next_id {
+            let holds: Vec<(usize, Hold)> = (0..m.tx.len()).filter_map(|k| m.hold(k, id).map(|h| (k, h.1))).collect();
+            let locked = e.tx_manager().is_row_locked(tn, id);
+            if let Some((k, _)) = holds.iter().find(|h| h.1 == Hold::Hard) {
+                if !locked {
+                    fail!("c09:lock:missing-for-row-held-by-open-tx".to_string(), format!("after [{}]: is_row_locked(row {id}) is false although the open tx{k} wrote the row and its lock is younger than the lock timeout", hist(i)));
+                }
+            } else if holds.is_empty() && locked {
+                fail!("c09:lock:left-behind-after-end".to_string(), format!("after [{}]: row {id} is locked although no open transaction holds it", hist(i)));
+            } else if !holds.is_empty() && holds.iter().all(|h| h.1 == Hold::Vanished) && locked {
+                fail!("c09:lock:survives-timeout".to_string(), format!("after [{}]: row {id} is still locked although its holder is older than the lock and the transaction timeout", hist(i)));
+            }
+        }
     }
     let all = case.events.iter().map(show_ev).collect::<Vec<_>>().join("; ");
     if m.tx.iter().any(|t| t.st == TxSt::Active) {
         return out; // S3 cases end with an open (expired) holder: nothing more is defined
     }
-    out.final_state = format!("{:?}", m.rows);
+    if !tainted {
+        out.final_state = format!("{:?}", m.rows);
+    }
     // locks must be gone, nothing may be active
     let tm = e.tx_manager();
     let left: Vec<u64> = (1..m.next_id).filter(|id| tm.is_row_locked(tn, *id)).collect();
@@ -749,8 +837,10 @@ fn run_case_in(e: &RelationalEngine, tn: &str, case: &Case, level: u8, selftest:
     }
     // indexed reads
     let phase = if any_rollback { "after-rollback" } else { "after-commit" };
-    if let Some(f) = battery(e, tn, &m.rows, m.next_id, case.cfg, level, &mut out.evals) {
-        fail!(format!("c09:query-{phase}:{}", f.sig), format!("after [{all}]: {}", f.msg));
+    if !tainted {
+        if let Some(f) = battery(e, tn, &m.rows, m.next_id, case.cfg, level, &mut out.evals) {
+            fail!(format!("c09:query-{phase}:{}", f.sig), format!("after [{all}]: {}", f.msg));
+        }
     }
     // finished transactions are refused by every tx_* call and change nothing
     for (k, t) in m.tx.iter().enumerate() {
@@ -950,6 +1040,36 @@ fn for_each_case(pl: &Plan, only: Option<&str>, f: &mut dyn FnMut(u64, Case)) {
                         }
                     } else {
                         emit(Case { part: "S3".into(), cfg: 0, rows0: 2, ntx: 2, events });
+                    }
+                }
+            }
+        }
+    }
+    // S4: the lock taken over after an expiry is a live lock. Holder tx0 writes; +31 s (its lock
+    // expires, it stays open); tx1 writes (admission is information only); tx0 commits or rolls back;
+    // optionally +29 s (tx1's lock still fresh); a third writer tx2 must be refused wherever tx1 holds
+    // the row; then tx1 and tx2 end in both orders, both ways.
+    if want("S4") {
+        for s0 in s2_alphabet(0) {
+            for s1 in s2_alphabet(1) {
+                for commit0 in [true, false] {
+                    for adv in [0, 29_000] {
+                        for s2 in s2_alphabet(2) {
+                            let mut head = vec![Ev::Tx(0, s0), Ev::Advance(31_000), Ev::Tx(1, s1), if commit0 { Ev::Commit(0) } else { Ev::Rollback(0) }];
+                            if adv > 0 {
+                                head.push(Ev::Advance(adv));
+                            }
+                            head.push(Ev::Tx(2, s2));
+                            for ends in 0..4u8 {
+                                let e1 = if ends & 1 != 0 { Ev::Commit(1) } else { Ev::Rollback(1) };
+                                let e2 = if ends & 2 != 0 { Ev::Commit(2) } else { Ev::Rollback(2) };
+                                for order in [[e1, e2], [e2, e1]] {
+                                    let mut events = head.clone();
+                                    events.extend(order);
+                                    emit(Case { part: "S4".into(), cfg: 0, rows0: 2, ntx: 3, events });
+                                }
+                            }
+                        }
                     }
                 }
             }
@@ -1479,7 +1599,7 @@ fn main() {
         rep.finish();
     }
     rep.rule(&format!(
-        "S1: every script of <= L statements over a 12-letter alphabet of tx_insert/tx_update/tx_delete (conditions through _id, the hash-indexed column, the ordered-indexed column, TRUE) ended by commit or rollback, alone and with each of 4 (length-4 scripts: 2) non-transactional statements at every position; (index config, initial rows, L) = {:?}. S2: every pair of scripts (lengths {:?}{}) of two transactions writing tagged values to overlapping rows, both ends each, every merge order of statements and ends. S3: holder statement, clock +0/29/31/61 s, second writer. T: {} programs of 2-3 real threads, every schedule with <= {} preemptions (<= 2 for three threads or two calls per thread). Each case runs on a fresh table of a real RelationalEngine (one engine per worker process, replaced whenever a case does not end with all transactions finished and all locks gone); after every event the slab is compared with a sequential reference (held rows, undo images); at the end a battery of {} queries goes through select/count/select_columnar/tx_select{} and must return the reference rows, finished ids must be refused by every tx_* call, no lock may remain. non-trivial = cases in which at least one statement changed the table + schedules with >= 1 preemption",
+        "S1: every script of <= L statements over a 12-letter alphabet of tx_insert/tx_update/tx_delete (conditions through _id, the hash-indexed column, the ordered-indexed column, TRUE) ended by commit or rollback, alone and with each of 4 (length-4 scripts: 2) non-transactional statements at every position; (index config, initial rows, L) = {:?}. S2: every pair of scripts (lengths {:?}{}) of two transactions writing tagged values to overlapping rows, both ends each, every merge order of statements and ends. S3: holder statement, clock +0/29/31/61 s, second writer. S4: holder statement by tx0, clock +31 s, second writer tx1 on overlapping rows (admission = information), tx0 commits or rolls back, clock +0/+29 s, third writer tx2 (must be refused wherever tx1 holds the row with its fresh lock; is_row_locked must be true), then tx1 and tx2 end both ways in both orders; after a rollback of a transaction that lost rows to a later writer the table is adopted instead of judged. After every event of every case is_row_locked must be true for rows an open transaction holds with a fresh lock and false for rows nobody holds. T: {} programs of 2-3 real threads, every schedule with <= {} preemptions (<= 2 for three threads or two calls per thread). Each case runs on a fresh table of a real RelationalEngine (one engine per worker process, replaced whenever a case does not end with all transactions finished and all locks gone); after every event the slab is compared with a sequential reference (held rows, undo images); at the end a battery of {} queries goes through select/count/select_columnar/tx_select{} and must return the reference rows, finished ids must be refused by every tx_* call, no lock may remain. non-trivial = cases in which at least one statement changed the table + schedules with >= 1 preemption",
         pl.s1,
         pl.s2_pairs,
         if pl.s2_triples { ", and every triple of one-statement transactions" } else { "" },
